@@ -7,6 +7,7 @@
    identity (`value_bindings[pattern_value]`); a NodeOutputPattern is identified by (node, index). *)
 From Coq Require Import List ZArith String Bool QArith Qabs.
 Import ListNotations.
+Close Scope Q_scope.
 Local Open Scope string_scope.
 
 Definition vid := nat.   (* host value *)
@@ -47,7 +48,9 @@ Record npat := mkNP {
   np_other_attrs : bool;                 (* allow_other_attributes (default true) *)
   np_ins : list (option vpat);
   np_other_ins : bool;                   (* allow_other_inputs (default false) *)
-  np_outs : list (option string)         (* names of the NodeOutputPatterns *)
+  np_outs : list (option string);        (* names of the NodeOutputPatterns *)
+  np_id_known : bool                     (* op_identifier() is not None: true for nodes built by the API from constant
+                                            op/domain; false for the copies made by NodePattern.clone (commute) *)
 }.
 
 Record gpat := mkGP {
@@ -165,12 +168,15 @@ Definition spat_matches (p : spat) (s : string) : bool :=
   | SPrefix t => String.prefix t s
   end.
 
-(* NodePattern.op_identifier(): (domain, op, "") when both are constants *)
-Definition np_opid (np : npat) : option (string * string) :=
+(* (domain, op) when both are constants: the key under which OrValue / commute() see the node *)
+Definition np_opid_decl (np : npat) : option (string * string) :=
   match np_dom np, np_op np with
   | SExact d, SExact o => Some (d, o)
   | _, _ => None
   end.
+(* NodePattern.op_identifier() *)
+Definition np_opid (np : npat) : option (string * string) :=
+  if np_id_known np then np_opid_decl np else None.
 Definition h_opid (h : hnode) : string * string := (h_dom h, h_op h).
 Definition opid_eqb (a b : string * string) : bool := String.eqb (fst a) (fst b) && String.eqb (snd a) (snd b).
 
@@ -178,7 +184,7 @@ Definition opid_eqb (a b : string * string) : bool := String.eqb (fst a) (fst b)
 Definition qmax (a b : Q) : Q := if Qle_bool a b then b else a.
 (* abs(a-b) <= max(rel_tol * max(abs(a), abs(b)), abs_tol) *)
 Definition isclose (a b rel abs : Q) : bool :=
-  Qle_bool (Qabs (a - b)) (qmax (rel * qmax (Qabs a) (Qabs b)) abs).
+  Qle_bool (Qabs (a - b)%Q) (qmax (rel * qmax (Qabs a) (Qabs b))%Q abs).
 
 Fixpoint all_close (xs ps : list Q) (rel abs : Q) : bool :=
   match xs, ps with
